@@ -71,6 +71,8 @@ pub fn err_class_matches(expected: ErrClass, got: ErrClass) -> bool {
         (AlreadyExists, Bind) | (Bind, AlreadyExists) => true,
         // a constraint violation may be reported with either label
         (Unique, Constraint) | (NotNull, Constraint) => true,
+        // building a unique index over existing duplicates is refused by the tree ("key already exists")
+        (Unique, AlreadyExists) => true,
         _ => false,
     }
 }
@@ -316,7 +318,7 @@ pub fn run_once(p: &SeqParams, hist: &[usize]) -> StepReport {
         }
     }
     // end-of-history oracles
-    if ex.model.pending_update.is_empty() {
+    if ex.model.pending_update.is_empty() && ex.model.pending_reinsert.is_empty() {
         if p.audit_end {
             if let StepVerdict::Diverged(d) = ex.step(&Op::Audit, rcfg) {
                 return judge_divergence(&mut ex, rep, format!("end-of-history audit: {d}"), finish);
